@@ -95,6 +95,7 @@ theorem getStride_eq (r : Int) (h30 : r ≤ 30) (hlo : -2147483617 ≤ r) : getS
     simp only [Gen.MAX_RESOLUTION]
     rewrite [i32Sub_ok 30 r (by omega) (by omega)]
     simp only [Outcome.bind_ok]
+    rewrite [if_neg (by omega)]
     have hn : 2 * (30 - r).toNat < 64 := by omega
     have hm : 2 * (30 - r).toNat % 2 ^ 32 = 2 * (30 - r).toNat := Nat.mod_eq_of_lt (by omega)
     rewrite [hm]
@@ -140,6 +141,7 @@ theorem isFirstChild_hilbert (id n : Nat) (h1 : 1 ≤ n) (h29 : n ≤ 29) :
   simp only [Gen.MAX_RESOLUTION]
   rewrite [i32Sub_ok 30 _ (by omega) (by omega)]
   simp only [Outcome.bind_ok]
+  rewrite [if_neg (by omega)]
   have he : 2 * (30 - (1 + (n : Int))).toNat = 58 - 2 * n := by omega
   rewrite [he]
   have hm : (58 - 2 * n) % 2 ^ 32 = 58 - 2 * n := Nat.mod_eq_of_lt (by omega)
